@@ -15,6 +15,7 @@ mod rt;
 mod proxy;
 mod refpeer;
 mod scen_adv;
+mod scen_c05i;
 mod scen_c05u;
 mod scen_c08;
 mod scen_hsrv;
@@ -46,6 +47,9 @@ fn generate(prop: &str, seed: u64, thorough: bool) -> Option<Plan> {
         "C04" => Some(scen_link::gen_c04(seed, thorough)),
         "C05" => Some(scen_link::gen_c05(seed, thorough)),
         "C05udp" => Some(scen_c05u::gen_c05u(seed, thorough)),
+        "C05udpin" => Some(scen_c05i::gen_c05i("C05", seed, thorough)),
+        "C02owner" => Some(scen_c05i::gen_c05i("C02", seed, thorough)),
+        "C08reply" => Some(scen_c05i::gen_c05i("C08", seed, thorough)),
         "C06" => Some(scen_adv::gen_adv("C06", seed, thorough)),
         "C07" => Some(scen_adv::gen_adv("C07", seed, thorough)),
         "C08" => Some(scen_c08::gen_c08(seed, thorough)),
@@ -77,6 +81,7 @@ fn execute(plan: &Plan) -> Outcome {
         "link-seg" => scen_link::execute_c04(plan),
         "link-tamper" => scen_link::execute_c05(plan),
         "dgram-tamper" => scen_c05u::execute_c05u(plan),
+        "dgram-inpath" => scen_c05i::execute_c05i(plan),
         "local-hs" => scen_local::execute_c13(plan),
         "teardown" => scen_c15::execute_c15(plan),
         "survival" => scen_c08::execute_c08(plan),
